@@ -190,3 +190,121 @@ func runParked(sc parkedScenario, seed uint64) string {
 	}
 	return ""
 }
+
+// runParkedNode: reader A looks a key up on a store that has nothing cached and is parked at the END of its k-th node
+// ReadAt (the bytes are in its buffer, the call has not returned); reader B then looks up keys on other paths, loading
+// other nodes; A is released.  Both must answer from the one version there is, and a full visit afterwards must show
+// every item (a node parsed from another node's bytes stays cached).
+func runParkedNode(seed uint64) string {
+	r := NewRng(seed)
+	mf := NewMemFile()
+	mf.logOn = false
+	s, err := gkvlite.NewStore(mf)
+	if err != nil {
+		return "open: " + err.Error()
+	}
+	c := s.SetCollection("p", nil)
+	n := 10 + r.Intn(30)
+	key := func(i int) []byte { return []byte(fmt.Sprintf("k%03d", i)) }
+	val := func(i int) []byte { return []byte(fmt.Sprintf("value-%d", i)) }
+	for i := 0; i < n; i++ {
+		if err := c.SetItem(&gkvlite.Item{Key: key(i), Val: val(i), Priority: int32(r.U64() & 0x7fffffff)}); err != nil {
+			return "set: " + err.Error()
+		}
+	}
+	if err := s.Flush(); err != nil {
+		return "flush: " + err.Error()
+	}
+	s2, err := gkvlite.NewStore(mf) // nothing cached
+	if err != nil {
+		return "reopen: " + err.Error()
+	}
+	c2 := s2.GetCollection("p")
+	const nodeLen = 52
+	kth := 1 + r.Intn(3)
+	seen := 0
+	parked := make(chan struct{})
+	gate := make(chan struct{})
+	armed := true
+	mf.parkAfter = func(kind byte, off int64, ln int) {
+		if armed && kind == 'R' && ln == nodeLen {
+			seen++
+			if seen == kth {
+				armed = false
+				close(parked)
+				<-gate
+			}
+		}
+	}
+	ka := r.Intn(n)
+	type res struct {
+		val []byte
+		err error
+		pan interface{}
+	}
+	done := make(chan res, 1)
+	go func() {
+		var out res
+		defer func() {
+			if p := recover(); p != nil {
+				out.pan = p
+			}
+			done <- out
+		}()
+		out.val, out.err = c2.Get(key(ka))
+	}()
+	select {
+	case <-parked:
+	case <-done:
+		mf.parkAfter = nil
+		return "skip"
+	case <-time.After(5 * time.Second):
+		mf.parkAfter = nil
+		return "skip"
+	}
+	var msg string
+	for j := 0; j < 6 && msg == ""; j++ {
+		kb := r.Intn(n)
+		v, err := c2.Get(key(kb))
+		if err != nil || !bytes.Equal(v, val(kb)) {
+			msg = fmt.Sprintf("reader B: Get(%s) = %q, %v while reader A is parked in a node read", key(kb), v, err)
+		}
+	}
+	close(gate)
+	var a res
+	select {
+	case a = <-done:
+	case <-time.After(10 * time.Second):
+		return "reader A did not return within 10 s after being released"
+	}
+	mf.parkAfter = nil
+	if msg != "" {
+		return msg
+	}
+	if a.pan != nil {
+		return fmt.Sprintf("reader A panicked: %v", a.pan)
+	}
+	if a.err != nil || !bytes.Equal(a.val, val(ka)) {
+		return fmt.Sprintf("reader A: Get(%s) = %q, %v after being parked at the end of its node read no. %d", key(ka), a.val, a.err, kth)
+	}
+	cnt := 0
+	var verr string
+	err = c2.VisitItemsAscend(nil, true, func(i *gkvlite.Item) bool {
+		if !bytes.Equal(i.Key, key(cnt)) || !bytes.Equal(i.Val, val(cnt)) {
+			verr = fmt.Sprintf("visit afterwards: item %d is %q=%q", cnt, i.Key, i.Val)
+			return false
+		}
+		cnt++
+		return true
+	})
+	if err != nil {
+		return "visit afterwards: " + err.Error()
+	}
+	if verr != "" {
+		return verr
+	}
+	if cnt != n {
+		return fmt.Sprintf("visit afterwards delivers %d of %d items", cnt, n)
+	}
+	return ""
+}
